@@ -1029,7 +1029,7 @@ class Multiply(Linop):
         self.mult = mult
         self.conj = conj
         if np.isscalar(mult):
-            self.mshape = [1]
+            self.mshape = []
         else:
             self.mshape = mult.shape
 
